@@ -747,6 +747,8 @@ var _ rpc.Resources
 //@ func (*encoderJSONFlat).encodeSubscription
 //@   requires e != nil
 //@   assumes s != nil && (s.err != nil ==> reserr.predErrOK(s.err))
+// (a failed reference is rendered as its own error, by the error encoder)
+//@   assert[C16] return#3: callcount("jsonEncodeError") == old(callcount("jsonEncodeError")) + 1
 //@   ensures[C16] result == nil ==> len(e.path) == old(len(e.path)) && (forall k int :: 0 <= k && k < len(e.path) ==> e.path[k] == old(e.path[k]))
 // (the id looked up on the expansion path is the id that is pushed onto it - the subscription's
 // own resource id, query included - and the href is built from that id)
